@@ -4,6 +4,7 @@ import (
 	"fmt"
 	mbits "math/bits"
 	"sort"
+	"strings"
 
 	"github.com/openacid/low/bitmap"
 
@@ -25,6 +26,16 @@ type c12Op struct {
 	Size  int32   `json:"size,omitempty"`
 	At    int32   `json:"at,omitempty"`
 	Value int32   `json:"value,omitempty"`
+	// Form: an Extend with NO positions hands over gen.EmptyI32(Form): nil (0), non-nil, spare capacity, tail
+	Form int `json:"empty_form,omitempty"`
+}
+
+// arg is the position list handed to Extend.
+func (o *c12Op) arg() []int32 {
+	if len(o.Pos) == 0 {
+		return gen.EmptyI32(o.Form)
+	}
+	return o.Pos
 }
 
 type c12Case struct {
@@ -35,6 +46,48 @@ type c12Case struct {
 	Segs     []c12Seg `json:"segs,omitempty"`
 	Prealloc int32    `json:"prealloc,omitempty"`
 	Ops      []c12Op  `json:"ops,omitempty"`
+	// Words: a dense bitmap given word by word (ToArray / Get on bitmaps that no position list produced)
+	Words gen.Words `json:"words,omitempty"`
+	// EmptyForm-1: the form (gen.EmptyI32) in which the EMPTY position list - of Of, or of segment Probe of
+	// OfMany - is handed over
+	EmptyForm int    `json:"empty_form,omitempty"`
+	FormName  string `json:"empty_form_name,omitempty"`
+}
+
+// c12OfEmpty: Of on the empty position list in form f (no wrapping: the very slice is the argument).
+func c12OfEmpty(f int, hasN bool, n int32) (got, want string) {
+	pos := gen.EmptyI32(f)
+	var w []uint64
+	p := ""
+	func() {
+		defer func() {
+			if e := recover(); e != nil {
+				p = fmt.Sprint("panic: ", e)
+			}
+		}()
+		if hasN {
+			w = bitmap.Of(pos, n)
+		} else {
+			w = bitmap.Of(pos)
+		}
+	}()
+	return "Of: " + p + hexs(w), "Of: " + hexs(refOf(nil, hasN, n))
+}
+
+// c12OfManyEmpty: OfMany of three segments of sizes 64, 70, 3 with segment k empty in form f (the others
+// hold {0, 63}, {1, 69}, {2}).
+func c12OfManyEmpty(f, k int) (got, want string) {
+	segs := []c12Seg{{Pos: []int32{0, 63}, Size: 64}, {Pos: []int32{1, 69}, Size: 70}, {Pos: []int32{2}, Size: 3}}
+	segs[k].Pos = nil
+	all, total, _ := c12Shift(segs)
+	subs := make([][]int32, len(segs))
+	sizes := make([]int32, len(segs))
+	for i, sg := range segs {
+		subs[i], sizes[i] = sg.Pos, sg.Size
+	}
+	subs[k] = gen.EmptyI32(f)
+	w, p := ofMany(subs, sizes)
+	return p + hexs(w), hexs(refOf(all, true, total))
 }
 
 func init() {
@@ -44,8 +97,8 @@ func init() {
 		Level:  "exploration",
 		Rule: "E1 + depth-bounded E2: (of) every subset of the 11 boundary positions {0,1,62,63,64,65,127,128,129,191,192} × n in {absent,-5,0,1,63,64,65,128,129,193,300}: word count and exact bit set of Of, ToArray(Of(l)) = l, Of(ToArray(b)) = b up to trailing zero words, and Get/Get1 inside plus SafeGet/SafeGet1 at every probe in [-70, 64·words+70); " +
 			"(of, far) every subset of {0,63,64,4095,4096,4097,65535,65536,2^20-1,2^20} × 6 sizes with probes around every position and end; (ofmany) every sequence of ≤3 segments (positions ⊂ {0,1,63,64,65}, size in {0,1,63,64,65,130}; positions ≥ size included, so the shifted concatenation need not be ascending) whose shifted bits all fit into the word count the statement gives, against the set model and that word count; " +
-			"(ofmany, many segments) OfMany on every threshold number of segments (round numbers ±1) from 1000 to 70000; (giant, 64-bit builds) the top of the int32 position range: Of on 12 (positions, n) combinations whose last bit or size lies within 65 of MaxInt32 (bitmaps of 2^25-1 and 2^25 words), with ToArray on two of them, Get/SafeGet probes next to every bit and SafeGet at MinInt32, and OfMany / a Builder whose running offset ends 50 below MaxInt32; reference arithmetic in int64; " +
-			"(builder) every sequence of ≤3 operations over the 216-operation alphabet (and every sequence of 4..R operations over a 10-operation sub-alphabet) {Extend(those 192 segments), Set(pos in {0,1,63,64,65,200}, value in 0..3)} executed on a real Builder from NewBuilder(0) and NewBuilder(256) (depth ≤2 also from NewBuilder(64) and NewBuilder(130)), with a second Builder extended and set between the steps (objects must not share state): set bits, Offset, capacity for every bit, and exact equality with the reference Of for Extend-only histories with ascending positions. A case is one call / one history; non-trivial when at least one bit is set.",
+			"(dense) ToArray and Of(ToArray(b)) on every bitmap of ≤4 words over the 12-word core alphabet and ≤2 words with one wide word (dense bitmaps: all-ones words and runs of them); (ofmany, many segments) OfMany on every threshold number of segments (round numbers ±1) from 1000 to 70000; (giant, 64-bit builds) the top of the int32 position range: Of on 12 (positions, n) combinations whose last bit or size lies within 65 of MaxInt32 (bitmaps of 2^25-1 and 2^25 words), with ToArray on two of them, Get/SafeGet probes next to every bit and SafeGet at MinInt32, and OfMany / a Builder whose running offset ends 50 below MaxInt32; reference arithmetic in int64; " +
+			"(builder) every sequence of ≤3 operations over the 234-operation alphabet (and every sequence of 4..R operations over a 10-operation sub-alphabet) {Extend(those 192 segments, the 6 without positions in each of 4 forms: nil, non-nil, with dirty spare capacity, empty tail of a longer array), Set(pos in {0,1,63,64,65,200}, value in 0..3)} executed on a real Builder from NewBuilder(0) and NewBuilder(256) (depth ≤2 also from NewBuilder(64) and NewBuilder(130)), with a second Builder extended and set between the steps (objects must not share state): set bits, Offset, capacity for every bit, and exact equality with the reference Of for Extend-only histories with ascending positions. A case is one call / one history; non-trivial when at least one bit is set.",
 		Assumptions: []string{"positions beyond 300 and longer histories are not enumerated; non-ascending lists are outside Of's and OfMany's statement"},
 		Run:         c12Run,
 		Judge:       mc.JudgeOf(c12Judge),
@@ -240,6 +293,12 @@ func c12Ops() []c12Op {
 	var ops []c12Op
 	for _, s := range c12Segments() {
 		ops = append(ops, c12Op{Op: "extend", Pos: s.Pos, Size: s.Size})
+		if len(s.Pos) == 0 {
+			// the empty segment in the other forms a caller can hand it over
+			for f := 1; f < gen.EmptyForms; f++ {
+				ops = append(ops, c12Op{Op: "extend", Size: s.Size, Form: f})
+			}
+		}
 	}
 	for _, at := range []int32{0, 1, 63, 64, 65, 200} {
 		for v := int32(0); v < 4; v++ {
@@ -349,7 +408,7 @@ func c12HistoryOK(prealloc int32, ops []c12Op) (ok bool) {
 		by.Extend(c12ByPos, 67)
 		by.Set(int32(5+i), 1)
 		if o.Op == "extend" {
-			b.Extend(o.Pos, o.Size)
+			b.Extend(o.arg(), o.Size)
 			for _, p := range o.Pos {
 				v := off + p
 				if v <= last {
@@ -424,7 +483,7 @@ func c12History(prealloc int32, ops []c12Op) (got, want string) {
 			by.Set(int32(5+i), 1)
 			switch o.Op {
 			case "extend":
-				b.Extend(o.Pos, o.Size)
+				b.Extend(o.arg(), o.Size)
 			case "set":
 				b.Set(o.At, o.Value)
 			}
@@ -525,6 +584,22 @@ func c12Run(c *mc.Ctx) {
 			c.ForceSample(map[string]interface{}{"fn": "Of/ToArray/Get*", "positions": pos, "n": "each of absent,-5,0,1,63,64,65,128,129,193,300", "probes_per_case": "[-70, 64*words+70)"})
 		}
 	})
+	// (of, empty forms) the EMPTY position list in every form a caller can hand it over (nil, non-nil,
+	// dirty spare capacity, empty tail of a longer array) × every n; and as each segment of an OfMany
+	for f := 0; f < gen.EmptyForms; f++ {
+		for ni, n := range c12Ns {
+			if g, w := c12OfEmpty(f, n.has, n.n); g != w {
+				c.Fail(11<<50|int64(f)<<8|int64(ni), "OfEmpty/"+gen.EmptyFormName(f), "OfEmpty", c12Case{HasN: n.has, N: n.n, EmptyForm: f + 1, FormName: gen.EmptyFormName(f)}, g, w)
+			}
+		}
+		for k := 0; k < 3; k++ {
+			if g, w := c12OfManyEmpty(f, k); g != w {
+				c.Fail(12<<50|int64(f)<<8|int64(k), "OfManyEmpty/"+gen.EmptyFormName(f), "OfManyEmpty", c12Case{Probe: int32(k), EmptyForm: f + 1, FormName: gen.EmptyFormName(f)}, g, w)
+			}
+		}
+		c.Count(int64(len(c12Ns))+3, 3)
+	}
+	c.Expect(int64(gen.EmptyForms) * (int64(len(c12Ns)) + 3))
 	// (of, far) positions thousands of bits apart
 	far := []int32{0, 63, 64, 4095, 4096, 4097, 65535, 65536, 1<<20 - 1, 1 << 20}
 	farNs := []struct {
@@ -557,6 +632,45 @@ func c12Run(c *mc.Ctx) {
 		c.Count(evals, nontriv)
 		c.Add("probe_calls", probes*4)
 	})
+	// (dense) ToArray, Get/Get1 and Of(ToArray(b)) on DENSE bitmaps: every bitmap of ≤4 words over the
+	// 12-word core alphabet (all-ones words, runs of them followed by any other word, ...) - the position
+	// lists above never fill a word
+	{
+		sp := gen.BMSpace{MaxCore: 4, MaxWide: 2}
+		shards := sp.Shards()
+		c.Expect(sp.Card())
+		c.Par(len(shards), func(si int) {
+			var n int64
+			shards[si].Each(func(w []uint64) {
+				n++
+				var want []int32
+				for i := 0; i < 64*len(w); i++ {
+					if w[i>>6]>>uint(i&63)&1 == 1 {
+						want = append(want, int32(i))
+					}
+				}
+				got, p := toArray(w)
+				if p != "" || !eqI32(got, want) {
+					c.Fail(9<<50|int64(si)<<32|n, "ToArrayDense", "ToArray/dense", c12Case{Words: append(gen.Words(nil), w...)}, p+clipS(fmt.Sprint(got)), clipS(fmt.Sprint(want)))
+					return
+				}
+				back, p2 := of(got, false, 0)
+				tw := w
+				for len(tw) > 0 && tw[len(tw)-1] == 0 {
+					tw = tw[:len(tw)-1]
+				}
+				tb := back
+				for len(tb) > 0 && tb[len(tb)-1] == 0 {
+					tb = tb[:len(tb)-1]
+				}
+				if p2 != "" || !eqU64(tb, tw) {
+					c.Fail(9<<50|int64(si)<<32|n, "ToArrayDense", "Of(ToArray)/dense", c12Case{Words: append(gen.Words(nil), w...)}, p2+hexs(back), hexs(tw)+" (+ zero words)")
+				}
+			})
+			c.Count(n, n)
+			c.Add("dense_bitmaps", n)
+		})
+	}
 	// (ofmany, many segments) every threshold number of segments (round numbers ±1) from 1000 to 70000:
 	// segment i has size 1 + i%3 and sets its bit 0 when i%5 != 0 (so sizes and emptiness vary)
 	{
@@ -920,9 +1034,36 @@ func c12GiantMany(kind string) (got, want string) {
 }
 
 func c12Judge(kind string, cs c12Case) (got, want string) {
+	if i := strings.Index(kind, "Empty/"); i >= 0 {
+		kind = kind[:i+5]
+	}
 	switch kind {
+	case "OfEmpty":
+		return c12OfEmpty(cs.EmptyForm-1, cs.HasN, cs.N)
+	case "OfManyEmpty":
+		return c12OfManyEmpty(cs.EmptyForm-1, int(cs.Probe))
 	case "OfGiant":
 		return c12GiantOne(cs.Pos, cs.HasN, cs.N, cs.Probe == 1)
+	case "ToArrayDense":
+		w := []uint64(cs.Words)
+		var want []int32
+		for i := 0; i < 64*len(w); i++ {
+			if w[i>>6]>>uint(i&63)&1 == 1 {
+				want = append(want, int32(i))
+			}
+		}
+		g, p := toArray(w)
+		if p != "" || !eqI32(g, want) {
+			return p + clipS(fmt.Sprint(g)), clipS(fmt.Sprint(want))
+		}
+		back, p2 := of(g, false, 0)
+		for len(w) > 0 && w[len(w)-1] == 0 {
+			w = w[:len(w)-1]
+		}
+		for len(back) > 0 && back[len(back)-1] == 0 {
+			back = back[:len(back)-1]
+		}
+		return "Of(ToArray): " + p2 + hexs(back), "Of(ToArray): " + hexs(w)
 	case "OfManySegments":
 		return c12ManySegments(int(cs.N))
 	case "OfManyGiant":
